@@ -2,6 +2,7 @@ package c15
 
 import (
 	"fmt"
+	"os"
 	"testing"
 
 	"pgregory.net/rapid"
@@ -16,8 +17,17 @@ var outerT *testing.T
 func TestMain(m *testing.M) { pbt.Main(m, run) }
 
 func gen(t *rapid.T) mqrig.Case {
-	if rapid.IntRange(0, 3).Draw(t, "pattern") == 0 {
+	pat := rapid.IntRange(0, 7).Draw(t, "pattern")
+	if f := os.Getenv("VERIF_PATTERN"); f != "" {
+		pat = int(f[0] - '0')
+	}
+	switch pat {
+	case 0, 1:
 		return mqrig.GenWindDown(t)
+	case 2, 3:
+		return mqrig.GenFailBurst(t)
+	case 4:
+		return mqrig.GenBacklog(t)
 	}
 	return mqrig.Gen(t, run.Thorough())
 }
